@@ -125,7 +125,9 @@ def walk(g: CFG, ev: Evaluator, track_assign: bool = True, max_steps: int = 2000
     'fallthrough', 'raise', or 'unknown' with the condition node that could not be evaluated."""
     cur = g.entry
     trace: List[str] = []
+    ev.visited = []  # ids of the CFG nodes passed, in order (used by rules that ask "was this statement reached?")
     for _ in range(max_steps):
+        ev.visited.append(cur.id)
         succ = g.succ[cur.id]
         if cur.kind == "exit":
             return "fallthrough", None, trace
